@@ -60,6 +60,8 @@ type CaseResult struct {
 	Samples       []PathSample     `json:"samples,omitempty"`
 	Verdict       string           `json:"verdict"` // pass | violation | inconclusive
 	Concretized   int64            `json:"concretizations"`
+	ReplayOutcome string           `json:"replay_outcome,omitempty"`
+	ReplayReach   []string         `json:"replay_reach,omitempty"`
 }
 
 type PathSample struct {
@@ -285,7 +287,7 @@ func runCase(in *Interp, workers []*Worker, cs *CaseSpec) *CaseResult {
 					cr.Paths++
 					cr.Branches += int64(st.symBranches)
 					cr.Asserts += int64(st.asserts)
-					if st.symBranches > 0 && st.asserts > 0 {
+					if st.symBranches > 0 {
 						cr.Nontrivial++
 					}
 					seen := map[string]bool{}
@@ -294,6 +296,21 @@ func runCase(in *Interp, workers []*Worker, cs *CaseSpec) *CaseResult {
 							seen[r] = true
 							cr.Reach[r]++
 						}
+					}
+				}
+				if cs.Replay != nil && st.status != stInfeasible {
+					cr.ReplayReach = append([]string{}, st.reach...)
+					switch {
+					case len(st.viols) > 0:
+						cr.ReplayOutcome = "violated: " + st.viols[0].Msg
+					case st.status == stOK:
+						cr.ReplayOutcome = "passed"
+					case st.status == stAssumeFalse:
+						cr.ReplayOutcome = "assume-false"
+					case st.status == stPanic:
+						cr.ReplayOutcome = "panic: " + st.msg
+					default:
+						cr.ReplayOutcome = name + ": " + st.msg
 					}
 				}
 				switch st.status {
